@@ -479,6 +479,17 @@ func vfH_C20_holdqueue() {
 	for i := 0; i < N; i++ {
 		push()
 	}
+	// some are popped before the program starts: none, one, or enough to drain the inline slice while
+	// the scale queue (if the fill reached it) still holds entries
+	P := 0
+	if N >= 140 {
+		P = [4]int{0, 1, 130, 280}[vfChoice("prepop", 4)]
+	}
+	for i := 0; i < P && len(model) > 0; i++ {
+		r := popLive()
+		vfAssert(r == model[0], "holder queue: the first live entry popped is the wrong one")
+		model = model[1:]
+	}
 	for step := 0; step < 4; step++ {
 		switch vfChoice(vfName("op", step), 5) {
 		case 0:
